@@ -552,12 +552,24 @@ def gen_fn(out, unit, f, sf, meta, probe):
     cur_line = body_line0
     pending = ''
 
+    def body_tag(line):
+        # a rewrite may carry `/*@ob NAME | Cxx Cyy*/`
+        t = {'kind': 'body', 'fn': fnq, 'src': (relfile, cur_line)}
+        mp = re.search(r'/\*@ob (\w+) \| ([A-Z0-9 ]+)\*/', line)
+        if mp:
+            # a named obligation for what Verus generates on this rewritten line (a closure contract taken from the
+            # property statement, a callee precondition)
+            t['props'] = mp.group(2).split()
+            t['ob'] = '%s.%s' % (fnq, mp.group(1))
+            ci[t['ob']] = {'fn': fnq, 'kind': 'rewrite-contract', 'props': t['props'], 'text': 'contract written into a rewrite: ' + ' '.join(line.split())[:220]}
+        return t
+
     def emit_src(txt):
         nonlocal cur_line, pending
         parts = txt.split('\n')
         for idx, part in enumerate(parts):
             if idx < len(parts) - 1:
-                out.add(pending + part, {'kind': 'body', 'fn': fnq, 'src': (relfile, cur_line)})
+                out.add(pending + part, body_tag(pending + part))
                 pending = ''
                 cur_line += 1
             else:
@@ -566,7 +578,7 @@ def gen_fn(out, unit, f, sf, meta, probe):
     def flush_pending():
         nonlocal pending
         if pending != '':
-            out.add(pending, {'kind': 'body', 'fn': fnq, 'src': (relfile, cur_line)})
+            out.add(pending, body_tag(pending))
             pending = ''
 
     for (p, _o, kind, payload, _x) in edits:
